@@ -8,7 +8,8 @@
 (*          "parsed" : the first step is the parse of the object's own export, then as "all"       *)
 (*          "sim"    : everything, in any order, exports only where TLC puts them                  *)
 (*    H_D_<LANE> number of changes per history (0 = lane off);  H_SNAP = 1: starts one below a     *)
-(*    segment start (snap up) are in the menu of requested starts                                  *)
+(*    segment start (snap up) are in the menu of requested starts;  H_R0 = "zero": the object is   *)
+(*    created as a full image only (else with every start of the menu)                             *)
 EXTENDS BimgHist
 VARIABLES lane,   \* which family of histories this behaviour belongs to
           c0,     \* the case the object was created with
@@ -33,7 +34,7 @@ HReqs(sg) == LET so == StaticOffsIn(sg) IN {0} \cup so \cup (IF Snap THEN { o - 
 HGInit == /\ lane \in Lanes /\ tb \in DOMAIN Tables
           /\ cs \in { [present |-> Mat([i \in DOMAIN Tables[tb].segs |-> TRUE]),
                        plen |-> Mat([i \in DOMAIN Tables[tb].segs |-> HLen0(Tables[tb].segs, i)]),
-                       req |-> r] : r \in HReqs(Tables[tb].segs) }
+                       req |-> r] : r \in (IF IOEnv.H_R0 = "zero" THEN {0} ELSE HReqs(Tables[tb].segs)) }
           /\ c0 = cs /\ hist = <<>> /\ fin = FALSE
           /\ ph = "new" /\ cur = 0 /\ nx = 0 /\ act = [a |-> "Init"]
           /\ hn = 0 /\ seen = Mat([i \in DOMAIN Tables[tb].segs |-> FALSE]) /\ pp = Mat([i \in DOMAIN Tables[tb].segs |-> 0])
